@@ -329,6 +329,85 @@ def check_name_sources(run, f, cfg):
         run.ob("C19.R3", "enum_def:name", ok, "the generated enum is named prefix + struct identifier + suffix", sp=e["sp"], cfg=cfg)
 
 
+RUST_KEYWORDS = set("as break const continue crate else enum extern false fn for if impl in let loop match mod move mut pub ref return self Self static struct "
+                    "super trait true type unsafe use where while async await dyn abstract become box do final macro override priv typeof unsized "
+                    "virtual yield try".split())
+
+
+def check_enum_def_table_ident(run, f, cfg):
+    """the identifier that #[enum_def] interpolates for the `Table` variant: the backward slice of its definition (the lets
+    it depends on) is interpreted for type names that are ordinary, multi-word, acronyms and Rust keywords, with and
+    without `table_name = ".."`; the spelled identifier must be the option or snake_case(type name), nothing added"""
+    from ..interp import Opaque
+    e = f.fns.get("crate::enum_def")
+    if e is None:
+        return
+    body = e["hir"]
+    lets = [n for n in walk(body) if n.get("k") == "stmt_let" and n.get("init") is not None]
+    interp_locals = set()
+    for c in H.calls(body):
+        if (c.get("callee") or "").endswith("ToTokens::to_tokens"):
+            a = c["args"][0] if c.get("k") == "call" else c["recv"]
+            if H.place(a):
+                interp_locals.add(H.place(a))
+
+    def free_locals(node):
+        return set(n["name"] for n in walk(node) if n.get("k") == "local")
+
+    def mentions_option(node):
+        return any(n.get("k") == "field" and n.get("name") == "table_name" for n in walk(node))
+    # the slice: lets (in order) that the interpolated local depends on, for the local whose slice reads args.table_name
+    target, slice_ = None, None
+    for cand in sorted(interp_locals):
+        need, chosen = {cand}, []
+        for l in reversed(lets):
+            bound = set(b["name"] for b in walk(l["pat"]) if b.get("k") == "bind")
+            if bound & {"args", "input"}:
+                continue            # the parsed macro input: the sources of the slice
+            if bound & need:
+                chosen.append(l)
+                need |= free_locals(l["init"])
+        if any(mentions_option(l["init"]) for l in chosen):
+            target, slice_ = cand, list(reversed(chosen))
+            break
+    if target is None:
+        run.anchor("C19.R3", "enum_def:table-ident", "no interpolated identifier of enum_def depends on the table_name option", cfg)
+        return
+    IDENT = "proc_macro2::Ident"
+    bad, rows = [], 0
+    try:
+        for tname in ("Hello", "UserProfile", "HTTPServer", "Type", "Match", "Ref"):
+            for opt in (None, "custom_table", "type"):
+                rows += 1
+                b = builtins()
+                b.update({
+                    IDENT + "::new": lambda it_, a: Var(IDENT, [a[0]]),
+                    IDENT + "::new_raw": lambda it_, a: Var(IDENT, ["r#" + a[0]]),
+                    IDENT + "::span": lambda it_, a: Opaque("span"),
+                    "syn::parse_str": lambda it_, a: (("Ok", Var(IDENT, [a[0]])) if (a[0] not in RUST_KEYWORDS and a[0].isidentifier()) else ("Err", Opaque("syn::Error"))),
+                    "quote::__private::mk_ident": lambda it_, a: Var(IDENT, [a[0]]),
+                })
+                it = Interp(f, builtins=b)
+                it.free_opaque = True
+                it.display_hook = lambda v: v.fields[0] if isinstance(v, Var) and v.d == IDENT else None
+                env = {"args": {"table_name": (("__some", opt) if opt is not None else None), "crate_name": None, "prefix": None, "suffix": None},
+                       "input": {"ident": Var(IDENT, [tname]), "attrs": Opaque("attrs"), "vis": Opaque("vis"), "fields": Opaque("fields"), "generics": Opaque("g")}}
+                for l in slice_:
+                    if any(bn in ("args", "input") for bn in (x["name"] for x in walk(l["pat"]) if x.get("k") == "bind")):
+                        continue        # the parsed macro input itself
+                    it.ev(l, env)
+                got = env.get(target)
+                want = opt if opt is not None else snake_case(tname)
+                if not (isinstance(got, Var) and got.d == IDENT and got.fields[0] == want):
+                    bad.append("struct %s, table_name = %r: `Table` is spelled %r, expected %r" % (tname, opt, got.fields[0] if isinstance(got, Var) else got, want))
+    except (Unsupported, Diverged) as ex:
+        run.ob("C19.R3", "enum_def:table-ident", False, "the definition of `%s` in enum_def is outside the tabulated fragment: %s" % (target, ex), sp=e["sp"], cfg=cfg)
+        return
+    run.ob("C19.R3", "enum_def:table-ident", not bad,
+           "enum_def: the identifier interpolated for `Table` (`%s`, %d lets interpreted on %d (type name, table_name option) rows incl. keyword names) is the option, "
+           "else snake_case(type name), with nothing added%s" % (target, len(slice_), rows, "" if not bad else " - NOT: " + "; ".join(bad[:3])), sp=e["sp"], cfg=cfg)
+
+
 def T_text(e):
     from ..tir import text
     return text(e)
@@ -470,6 +549,7 @@ def check(run):
         check_variant_predicate(run, f, cfg)
     check_guards(run, f, cfg)
     check_name_sources(run, f, cfg)
+    check_enum_def_table_ident(run, f, cfg)
     check_witnesses(run, f, cfg)
     run.trusted.append("heck's to_snake_case / to_pascal_case implement the documented casing (cross-checked on the expansions of tests/derive against an independent implementation)")
     run.assumptions.append("not decided: the transformation on all possible input programs beyond the guards, name sources and in-repo expansions")
